@@ -34,6 +34,7 @@ def rules(ctx):
     c136(ctx)
     c137(ctx)
     c138(ctx)
+    c139(ctx)
 
 
 def c13_open_options(ctx):
@@ -257,6 +258,42 @@ def c138(ctx):
                       "%s writes to the manifest without asking whether an earlier write failed (the error is recorded in `poison` and never looked at): "
                       "the next edit is appended behind a torn one and both are read back as one edit" % f.skey, pt=pt)
     ctx.floor(R, "manifest methods that write files", n, 2)
+
+
+def c139(ctx):
+    R = "C13.9"
+    ctx.declare(R, "a rollover that died after linking its backup is resumed, not repeated: the current log is linked under a new backup number only "
+                   "if it is not already the newest backup (same file), otherwise the chain of fragments gains a copy that does not continue its predecessor")
+    f = ctx.fn(R, M + "rollover")
+    if not f:
+        return
+    links = [p_ for p_ in P.call_points(f, r"^std::fs::hard_link$")]
+    ctx.floor(R, "rollover: backup links", len(links), 1)
+
+    def identity_test(g, depth=0):
+        if any(re.search(r"MetadataExt.*::(ino|st_ino)$|::ino$", c.get("callee") or "") for _b, c in g.calls()):
+            return True
+        if depth < 1:
+            for _b, c in g.calls():
+                for k_ in ctx.prog.targets(c):
+                    h = ctx.prog.fns.get(k_)
+                    if h is not None and h.crate in ("mani", "utilz") and h is not g and identity_test(h, depth + 1):
+                        return True
+        return False
+    for p_ in links:
+        ok = False
+        for bb, lab, srcs in K.guards(f, p_):
+            for x in srcs:
+                if x["k"] == "call":
+                    if re.search(r"::ino$", x["callee"]):
+                        ok = True
+                    for k_ in ctx.prog.targets(x["t"]):
+                        g = ctx.prog.fns.get(k_)
+                        if g is not None and g.crate in ("mani", "utilz") and identity_test(g):
+                            ok = True
+        ctx.check(R, f, "backup-link-not-repeated", ok, "the backup link is taken only when the current log is not already the newest backup",
+                  "rollover links MANIFEST under the next backup number unconditionally: after a death between that link and the final rename the next "
+                  "open links the same log a second time, and the fragments no longer chain (MANIFEST.N+1 is a copy of MANIFEST.N)", pt=p_)
 
 
 def c135(ctx):
